@@ -8,6 +8,8 @@ import (
 	"strings"
 	"time"
 
+	"github.com/jwhited/corebgp"
+
 	"corebgpverif/harness"
 	"corebgpverif/vrt"
 	"corebgpverif/world"
@@ -53,6 +55,32 @@ func slowTwin(s *Scn, kind string, n int, d time.Duration) *Scn {
 	return &t
 }
 
+// hold0Twin runs the same scenario with peer P1 configured WithHoldTime(0): the session negotiates hold
+// time 0, so there are no hold and keepalive timers and no periodic KEEPALIVEs - everything else the
+// scenario's oracle asks for is unchanged.
+func hold0Twin(s *Scn) *Scn {
+	t := *s
+	t.Name = s.Name + "@hold0"
+	t.Run = func(ch vrt.Chooser, trace bool) *ScnResult {
+		world.ExtraPeerOptions = []corebgp.PeerOption{corebgp.WithHoldTime(0)}
+		defer func() { world.ExtraPeerOptions = nil }()
+		return s.Run(ch, trace)
+	}
+	return &t
+}
+
+// withHold0 appends the hold-0 twin of every every-th scenario.
+func withHold0(scns []*Scn, every int) []*Scn {
+	out := scns
+	for i, s := range scns {
+		if every > 1 && i%every != every/3 {
+			continue
+		}
+		out = append(out, hold0Twin(s))
+	}
+	return out
+}
+
 // twinOf rebuilds a twin from the suffix of its name ("" = s itself).
 func twinOf(s *Scn, suffix string) *Scn {
 	switch {
@@ -60,6 +88,8 @@ func twinOf(s *Scn, suffix string) *Scn {
 		return s
 	case suffix == "legacy":
 		return legacyTwin(s)
+	case suffix == "hold0":
+		return hold0Twin(s)
 	case strings.HasPrefix(suffix, "slow:"):
 		var kind string
 		var n, ms int
